@@ -364,7 +364,8 @@ def main():
         replays += 1
         rdir = os.path.join(work, "replay%d" % replays)
         os.makedirs(rdir, exist_ok=True)
-        if cfg.get("native_replay", False) and v["kind"] in ("assert", "panic"):
+        engine_only = any(re.search(rx, v["entry"]) for rx in cfg.get("engine_replay_entries", []))
+        if cfg.get("native_replay", False) and v["kind"] in ("assert", "panic") and not engine_only:
             status, detail = native_replay(cfg, v, rdir)
             if status in ("error", "assume-failed", "not-reproduced"):
                 # fall back to deterministic engine replay, but mark the discrepancy
